@@ -223,14 +223,21 @@ fn negatives() -> Vec<String> {
         // years
         "1899", "10000", "1899-2000", "2000-10000", "1899 Jan 1", "1899Jan", "0999", "999",
         // zero steps
-        "2020-2030/0", "week 1-10/0", "2020-2030/00", "week 1-10/00",
+        "2020-2030/0", "week 1-10/0", "2020-2030/00", "week 1-10/00", "10:00-12:00/0", "10:00-12:00/00", "10:00-12:00/0:00", "10:00-12:00/00:00", "sunrise-sunset/00",
+        // a year pushed outside 1900..9999 by the day-number form of a range end
+        "9999 Dec 31-5", "9999 Dec 24-1",
     ];
     // whole-sentence garbage: judged alone
     let alone = [
         "\"", "Mo \"abc", "\"abc", "Mo-Fr 10:00-12:00 \"x", "Mo \"a\"b\"", "Mo open \"ring \"the bell\"\"",
         "this is not a valid expression", "10:00-12:00 tomorrow", "Mo-Fr 10:00-12:00 ;; Sa", "; Mo", "Mo ;", "Mo ||", "|| Mo", ", Mo", "Mo,", "24/24", "Xy", "Jan Foo",
     ];
-    let mut out: Vec<String> = vec!["".into(), " ".into(), "   ".into(), "\t".into(), "\n".into()];
+    // empty input: nothing but blanks, of every length up to 6 (the guard of the grammar looked past one blank only)
+    let mut out: Vec<String> = vec!["".into(), "\t".into(), "\n".into()];
+    for n in 1..=6 {
+        out.push(" ".repeat(n));
+        out.push(format!("Mo 10:00-12:00;{}", " ".repeat(n)));
+    }
     for f in fields {
         out.push(f.to_string());
         out.push(format!("{f} off"));
